@@ -640,6 +640,12 @@ func (g *FnGen) findLoops() {
 				if r, ok := in.(*ssa.Range); ok {
 					li.mods[iterKey(r)] = true
 				}
+				// the iterator is created before the loop and advanced by Next inside it
+				if nx, ok := in.(*ssa.Next); ok {
+					if r, ok := nx.Iter.(*ssa.Range); ok {
+						li.mods[iterKey(r)] = true
+					}
+				}
 			}
 		}
 	}
